@@ -422,7 +422,7 @@ fn main() {
     rep.set_extra("controlled_space", json!({"orders": ORDERS.len(), "cache": ["cold", "warm"], "newer_by": ["timestamp", "payload-tie"], "complete": true}));
     drop(store);
     // stress mode
-    let (shards, nkeys, publishes, resolvers) = a.pick((4, 3, 1500, 6), (40, 4, 10_000, 8));
+    let (shards, nkeys, publishes, resolvers) = a.pick((4, 3, 1500, 6), (24, 4, 10_000, 8));
     for shard in 0..shards {
         stress(&rep, &rt, a.seed, shard, nkeys, publishes, resolvers);
     }
